@@ -110,6 +110,10 @@ def handle (op : String) (args : List String) : Option String :=
     let tab ← table? (args.drop 24)
     let S := { S with apod := apodOf tab }
     pure (" ".intercalate (tab.map fun p => cx (pmIntegrand S ωs ωi p.1)))
+  | "half_dkz_l" => do
+    let fs ← args.mapM parseFl
+    let (S, ωs, ωi, _) ← setup? fs
+    pure (fl (halfDkzL S ωs ωi))
   | "pm_coinc" => do
     let fs ← (args.take 24).mapM parseFl
     let (S, ωs, ωi, _) ← setup? fs
